@@ -196,19 +196,18 @@ package stage
 
 // ---------------------------------------------------------------- staging clean-up (C20)
 
-//@ func (*Stage).cleanStrays$1
+// the Walk callback is verified in the context of cleanStrays (specs: filepath.Walk callback fn)
+//@ func (*Stage).cleanStrays
 //@   before call readLocalCompanion assert reads-companion-of-the-partial: arg0 == compPath
 //@   before call os.Remove assert only-part-files: ext == partExt && (arg0 == partPath || arg0 == compPath)
-//@   before call os.Remove assert young-partials-untouched: clock - lastret(fs.FileInfo.ModTime, 0) >= minAge && old(err) == nil
+//@   before call os.Remove assert young-partials-untouched: clock - lastret(fs.FileInfo.ModTime, 0) >= minAge
 //@   before call os.Remove(partPath) assert delete-needs-delivered-same-hash: (!(fileState == stateUnknown || fileState == stateReceived || fileState == stateValidated || fileState == stateFailed) && (comp != nil ==> comp.Hash == fileHash)) || (called(sts.ReceiveLogger.WasReceived) && lastret(sts.ReceiveLogger.WasReceived, 0) && lastarg(sts.ReceiveLogger.WasReceived, 1) == relPath && (comp != nil ==> lastarg(sts.ReceiveLogger.WasReceived, 2) == comp.Hash))
 //@   before call os.Remove(partPath) assert version-is-looked-up: compExists ==> called(readLocalCompanion) && comp == lastret(readLocalCompanion, 0)
 //@   before call os.Remove(partPath) assert state-of-this-file: lastarg((*Stage).getFileState, 1) == filePath && filePath == lastret(strings.TrimSuffix, 0) && lastarg(strings.TrimSuffix, 0) == path && lastarg(strings.TrimSuffix, 1) == partExt
 //@   before call os.Remove(compPath) assert companion-only-with-partial: ncalls(os.Remove) == 1 && lastarg(os.Remove, 0) == partPath && lastret(os.Remove, 0) == nil
 
-//@ func (*Stage).pruneTree$1
-//@   on return assert only-old-dirs-collected: len(dirs) != old(len(dirs)) ==> err == nil && lastret(fs.FileInfo.IsDir, 0) && clock - lastret(fs.FileInfo.ModTime, 0) >= minAge
-
 //@ func (*Stage).pruneTree
+//@   before call builtin.append assert only-old-dirs-collected: err == nil && called(fs.FileInfo.IsDir) && lastret(fs.FileInfo.IsDir, 0) && clock - lastret(fs.FileInfo.ModTime, 0) >= minAge && arg1[0] == path
 //@   before call os.Remove assert removes-only-empty-collected-dirs: len(entries) == 0 && lastret(os.ReadDir, 1) == nil && lastarg(os.ReadDir, 0) == arg0 && 0 <= i && i < len(dirs) && arg0 == dirs[i]
 //@   forbid call os.RemoveAll label no-recursive-delete
 //@   loop 0 invariant i < len(dirs)
